@@ -76,3 +76,40 @@ Example C11_failing_modifier_example :
   ref_eval [] (fun _ => None) 10 (fun _ _ => None)
            (APrint [] (Sb "n"%string) [] (Sb "<"%string) (Sb ">"%string) false) e_loop = (Sb "<5>"%string, e_loop, SNone).
 Proof. exact failing_modifier_example. Qed.
+
+(* ---- the parser's side of "letters compose left to right" (Model/Parser.v, Proofs/ParserPieces.v):
+        for every table of expressions, the letters in front of "=" become one modifier per run of
+        equal letters, in the order written, with the run length as its literal argument -- exactly
+        the list the specification-side compiler (and through it the reference semantics) uses ---- *)
+From DT Require Import Model.Regex Model.ParserRe Model.Parser Proofs.ParserPieces.
+
+Theorem C11_parser_letters_are_runs : forall (T : retab) s fuel,
+  simple_letters s = true -> (List.length s < fuel)%nat ->
+  letter_mods T fuel s = c_letters (letter_runs s).
+Proof. exact letter_mods_runs. Qed.
+Print Assumptions C11_parser_letters_are_runs.
+
+(* two directive strings that do not share a letter at the seam: first all of the first, then all of the second *)
+Theorem C11_parser_letters_compose : forall (T : retab) s1 s2 f f1 f2,
+  simple_letters s1 = true -> simple_letters s2 = true -> boundary_distinct s1 s2 ->
+  (List.length (s1 ++ s2) < f)%nat -> (List.length s1 < f1)%nat -> (List.length s2 < f2)%nat ->
+  letter_mods T f (s1 ++ s2) = letter_mods T f1 s1 ++ letter_mods T f2 s2.
+Proof. exact letter_mods_app_distinct. Qed.
+Print Assumptions C11_parser_letters_compose.
+
+(* an argument list of plain arguments, with any number of blanks (also none) after the commas, is
+   stored argument for argument, in order, untouched *)
+Theorem C11_parser_plain_arguments : forall (T : retab) (E : penv) l sep,
+  forallb plain_arg l = true -> forallb (fun c => beqb c " "%byte) sep = true ->
+  extract_args T E (join_args sep l)
+  = map (fun a => mkArg [] a (is_static T a) (mem_b a (pe_globals E))) l.
+Proof. exact extract_args_plain. Qed.
+Print Assumptions C11_parser_plain_arguments.
+
+(* a quoted argument is stored without its quotes, whichever of the three quote characters is used *)
+Theorem C11_parser_quoted_argument : forall (T : retab) (E : penv) q a,
+  in_set quotes q = true -> quoted_body a = true ->
+  extract_args T E (q :: a ++ [q])
+  = [mkArg [] a (is_static T (q :: a ++ [q])) (mem_b a (pe_globals E))].
+Proof. exact extract_args_quoted_one. Qed.
+Print Assumptions C11_parser_quoted_argument.
